@@ -81,7 +81,8 @@ def entry (data : Bytes) (stops : Bool) (off steps : Nat) : (Bool ⊕ Nat) × Na
             | none => (.inl true, steps)
             | some (certs, off) => chain certs off
         else if typ = 2 then chain 1 off
-        else (.inl true, steps)
+        else if typ = 3 then (.inl true, steps)          -- secret-key entry: a serialized object of unknown extent ends the walk
+        else (.inr off, steps)                           -- unknown type: alias and date only, on to the next entry (as jks-go does)
 
 /-- the entry loop `for i < count && off < len(data)` -/
 def entries (data : Bytes) (stops : Bool) : Nat → Nat → Nat → Nat → Walk
